@@ -26,6 +26,7 @@ ASSUMPTIONS = ["oracle = the member constructs of the same library run in isolat
 MEMBERS = {
     "fixed": "Int16ub", "var": "VarInt", "const": "Const(b'\\x01')", "oneof": "OneOf(Byte, [1, 2, 255])",
     "nested": "Struct('a'/Byte, 'b'/VarInt)", "prefixed": "Prefixed(Byte, GreedyBytes)", "signed": "Int24sl",
+    "prefsized": "Prefixed(Byte, Int16ub)",      # sizeof() answers 3, the bytes consumed depend on the prefix
 }
 UNIONS = [
     ["'a'/Int16ub", "'b'/Byte"], ["'a'/Byte", "'b'/VarInt", "'c'/Int24ub"], ["Const(b'\\x01')", "'a'/Byte", "'b'/Int16ub"],
@@ -62,6 +63,18 @@ def instances(tier, seed):
         for pf in pfs:
             for s in (0, 2):
                 out.append(dict(name="union#%d parsefrom=%r @%d" % (i, pf, s), params=dict(kind="union", u=u, pf=pf, s=s, n=n)))
+    for i, u in enumerate(UNIONS):
+        named = [x.split("/")[0].strip("'") for x in u if "/" in x]
+        for pf in [None, len(u) - 1] + named[-1:]:
+            if "this.a" in " ".join(u):
+                continue
+            out.append(dict(name="compiled union#%d parsefrom=%r @1" % (i, pf), params=dict(kind="union", u=u, pf=pf, s=1, n=n, compiled=True)))
+    for m in names:
+        out.append(dict(name="compiled greedyrange %s @1" % m, params=dict(kind="range", m=m, s=1, n=n, compiled=True)))
+        for s in (0, 2):
+            out.append(dict(name="pointer on a side stream %s @%d" % (m, s), params=dict(kind="sidepointer", m=m, s=s, n=n)))
+        out.append(dict(name="pointer to the outer stream from inside a region %s" % m, params=dict(kind="regionpointer", m=m, n=n)))
+        out.append(dict(name="build pointer on a side stream %s" % m, params=dict(kind="bsidepointer", m=m)))
     for m in names:
         out.append(dict(name="build pointer %s" % m, params=dict(kind="bpointer", m=m)))
     out.append(dict(name="build peek", params=dict(kind="bpeek")))
@@ -87,10 +100,10 @@ def _alone(ctx, C, m, data, s, kw=None):
 
 def harness(ctx, C, p):
     kind = p["kind"]
-    if kind in ("bpointer", "bpeek", "bselect", "bselect2"):
+    if kind in ("bpointer", "bpeek", "bselect", "bselect2", "bsidepointer"):
         return _build(ctx, C, p)
     data = ctx.bytes("data", p["n"])
-    s = p["s"]
+    s = p.get("s", 0)
     if kind == "peek":
         m = MEMBERS[p["m"]]
         d = mk(C, "Peek(%s)" % m)
@@ -124,6 +137,45 @@ def harness(ctx, C, p):
             ctx.check("Pointer restores the starting position", st.tell() == s)
             return "ok"
         return "fail"
+    if kind == "sidepointer":
+        # Pointer(..., stream=<another stream>): the member is read from the side stream at the target, the side
+        # stream gets its own position back, and the main stream only advances by the neighbours' bytes
+        m = MEMBERS[p["m"]]
+        d = mk(C, "Sequence(Byte, Pointer(this._params.off, %s, stream=lambda ctx: ctx._params.side), Byte)" % m)
+        side_data = ctx.bytes("side", p["n"])
+        off = ctx.int("off", -p["n"] - 1, p["n"] + 2)
+        sp = ctx.choice("sidepos", [0, 3, p["n"]])
+        main, side = _at(ctx, data, s), _at(ctx, side_data, sp)
+        r = api.outcome(d.parse_stream, main, off=off, side=side)
+        target = off if not (off < 0) else (len(side_data) + off if not (len(side_data) + off < 0) else 0)
+        target = ctx.concretize(target)
+        ra, _ = _alone(ctx, C, m, side_data, target)
+        ctx.check("Pointer on a side stream succeeds iff the member parses there", r.ok == ra.ok)
+        if not r.ok:
+            return "fail"
+        ctx.check("values: neighbours from the main stream, member from the side stream", ctx.eq(list(r.value), [data[s], ra.value, data[s + 1]]))
+        ctx.check("the main stream advanced by the two neighbouring bytes only", main.tell() == s + 2)
+        ctx.check("the side stream got its position back", side.tell() == sp)
+        return "ok"
+    if kind == "regionpointer":
+        m = MEMBERS[p["m"]]
+        d = mk(C, "Struct('magic'/Byte, 'body'/Prefixed(Byte, Struct('first'/Pointer(this._._params.off, %s, stream=this._._io), 'x'/Byte, 'y'/GreedyBytes)), 'after'/Tell, 'tail'/Byte)" % m)
+        off = ctx.int("off", 0, p["n"])
+        st = _at(ctx, data, 0)
+        r = api.outcome(d.parse_stream, st, off=off)
+        ln = data[1]
+        fits = (ln >= 1) & (ln + 3 <= len(data))
+        ra, _ = _alone(ctx, C, m, data, ctx.concretize(off))
+        if not (fits & ra.ok):
+            ctx.check("a region that does not fit or a failing target fails the parse", not r.ok)
+            return "fail"
+        ctx.check("parse succeeds", r.ok)
+        ln = ctx.concretize(ln)
+        v = r.value
+        ctx.check("the pointed-to member is read from the outer stream at the absolute offset", ctx.eq(v.body.first, ra.value))
+        ctx.check("the region's own fields are read from the region", api.and_terms([ctx.eq(v.body.x, data[2]), ctx.eq(v.body.y, mkbytes(list(data[3:2 + ln])))]))
+        ctx.check("the outer stream continues right after the region", api.and_terms([ctx.eq(v.after, 2 + ln), ctx.eq(v.tail, data[2 + ln])]))
+        return "ok"
     if kind == "select":
         ms = [MEMBERS[x] for x in p["ms"]]
         src_ = "Optional(%s)" % ms[0] if p["opt"] else "Select(%s)" % ", ".join(ms)
@@ -145,6 +197,8 @@ def harness(ctx, C, p):
     if kind == "range":
         m = MEMBERS[p["m"]]
         d = mk(C, "GreedyRange(%s)" % m)
+        if p.get("compiled"):
+            d = d.compile()
         st = _at(ctx, data, s)
         r = api.outcome(d.parse_stream, st)
         exp, pos = [], s
@@ -161,6 +215,8 @@ def harness(ctx, C, p):
     if kind == "union":
         u, pf = p["u"], p["pf"]
         d = mk(C, "Union(%r, %s)" % (pf, ", ".join(u)))
+        if p.get("compiled"):
+            d = d.compile()
         st = _at(ctx, data, s)
         r = api.outcome(d.parse_stream, st)
         exp, ends, ok, env = {}, {}, True, {}
@@ -179,7 +235,8 @@ def harness(ctx, C, p):
                 env[name] = ra.value
             ends[i] = pos
         if not ok:
-            ctx.check("a failing member fails the Union", not r.ok)
+            if not p.get("compiled"):      # compiled code does not check short reads (docs/compilation.rst): nothing claimed there
+                ctx.check("a failing member fails the Union", not r.ok)
             return "fail"
         ctx.check("Union succeeds when every member parses from the start", r.ok)
         ctx.check("every member was parsed from the same start", ctx.eq(dict(r.value), exp))
@@ -189,12 +246,16 @@ def harness(ctx, C, p):
     raise ValueError(kind)
 
 
+def _sample(m):
+    return bytes([2, 1, 2, 0, 0, 0]) if m == MEMBERS["prefsized"] else bytes([1, 2, 1, 0, 0, 0])
+
+
 def _build(ctx, C, p):
     kind = p["kind"]
     if kind == "bpointer":
         m = MEMBERS[p["m"]]
         d = mk(C, "Sequence(Byte, Pointer(this._params.off, %s), Byte)" % m)
-        sample = mk(C, m).parse(bytes([1, 2, 1, 0, 0, 0]))
+        sample = mk(C, m).parse(_sample(m))
         inner = mk(C, m).build(sample)
         off = ctx.int("off", 0, 6)
         a, b = ctx.int("a", 0, 255), ctx.int("b", 0, 255)
@@ -209,6 +270,26 @@ def _build(ctx, C, p):
         ref.write(mkbytes([b]))
         ctx.check("Pointer writes the member at the target and restores the position", ctx.eq(st.getvalue(), ref.getvalue()))
         ctx.check("stream position after build", st.tell() == 2)
+        return "ok"
+    if kind == "bsidepointer":
+        m = MEMBERS[p["m"]]
+        d = mk(C, "Sequence(Byte, Pointer(this._params.off, %s, stream=lambda ctx: ctx._params.side), Byte)" % m)
+        sample = mk(C, m).parse(_sample(m))
+        inner = mk(C, m).build(sample)
+        off = ctx.int("off", 0, 6)
+        a, b = ctx.int("a", 0, 255), ctx.int("b", 0, 255)
+        junk = ctx.bytes("junk", 8)
+        sp = ctx.choice("sidepos", [0, 5, 8])
+        main, side = ctx.stream(), ctx.stream(junk)
+        side.seek(sp)
+        r = api.outcome(d.build_stream, [a, sample, b], main, off=off, side=side)
+        ctx.check("build with a side-stream Pointer succeeds", r.ok)
+        ctx.check("the main stream holds the neighbours only", ctx.eq(main.getvalue(), mkbytes([a, b])))
+        ref = ctx.stream(junk)
+        ref.seek(ctx.concretize(off))
+        ref.write(inner)
+        ctx.check("the member is written into the side stream at the target", ctx.eq(side.getvalue(), ref.getvalue()))
+        ctx.check("the side stream got its position back", side.tell() == sp)
         return "ok"
     if kind == "bpeek":
         d = mk(C, "Sequence(Peek(Int16ub), Byte)")
@@ -226,7 +307,7 @@ def _build(ctx, C, p):
     ms = [MEMBERS[x] for x in p["ms"]]
     d = mk(C, "Sequence(Byte, Select(%s), Byte)" % ", ".join(ms))
     which = ctx.choice("which", [0, 1])
-    sample = mk(C, ms[which]).parse(bytes([1, 2, 1, 0, 0, 0]))
+    sample = mk(C, ms[which]).parse(_sample(ms[which]))
     x, y = ctx.int("x", 0, 255), ctx.int("y", 0, 255)
     out = api.outcome(d.build, [x, sample, y])
     exp = None
